@@ -376,6 +376,7 @@ func mutate(r *rand.Rand, t *tx) *tx {
 }
 
 var fixed = []string{
+	"bool", "int8", "int16", "int64", "uint", "uint16", "uint32", "uint64", "uintptr", "float32", "float64", "complex64", "complex128",
 	"int", "A", "AA", "N", "N2", "byte", "uint8", "A8", "rune", "int32", "string", "error", "any", "interface{}", "unsafe.Pointer",
 	"*int", "AP", "*A", "**int", "*AP", "PN", "*N", "[]string", "AS", "[]AS", "[][]string", "[2]int", "[3]int", "[2]A", "[2]N",
 	"map[string]int", "map[string]A", "map[A]string", "map[int]string", "map[N]string",
